@@ -592,7 +592,7 @@ pub fn c14(tier: Tier) -> i32 {
         "every model-valid non-empty text of each universe is parsed with ImDocument; every key/value/table/array-of-tables span is checked for bounds, char boundaries, equality with the model's token extents (keys, values), syntactic containment, and slice re-parse; the same document is decoded through serde into a self-describing tree with and without Spanned wrappers (ranges equal to the document's, same success and value); after into_mut() no span remains; non-trivial = distinct valid non-empty documents",
     );
     rep.assumptions = vec!["refmodel's token extents are correct (they are compared with the real spans on every document, so an error on either side shows)".into()];
-    docu::run(&mut rep, tier, &["decor", "stmt", "ctx", "tok", "corpus", "num", "dt", "cp", "reopen"], &c14_eval);
+    docu::run(&mut rep, tier, &["decor", "stmt", "ctx", "tok", "corpus", "num", "dt", "cp", "bom", "reopen"], &c14_eval);
     dt_spanned(&mut rep, tier);
     // error locations are spans delivered through serde too: the typed mismatch family (shared with C15)
     crate::c15::typed(&mut rep);
